@@ -174,6 +174,7 @@ func cmdCheck(args []string) int {
 		return nil
 	}
 	discharged := 0
+	slowKeys := map[string]bool{}
 	var dischargedKeys []string
 	retCanaries, retFeasible := map[string]int{}, map[string]int{}
 	for _, r := range out.runs {
@@ -202,6 +203,9 @@ func cmdCheck(args []string) int {
 			case st == "unsat":
 				discharged++
 				dischargedKeys = append(dischargedKeys, o.ClauseKey)
+				if o.Result.Seconds > float64(timeout)/3 {
+					slowKeys[o.ClauseKey] = true
+				}
 			case st == "error":
 				out.engineErrs = append(out.engineErrs, o.Name+": "+o.Result.Raw)
 			case isKnown(o) != nil:
@@ -278,7 +282,34 @@ func cmdCheck(args []string) int {
 		if base.Props == nil {
 			base.Props = map[string][]string{}
 		}
-		base.Props[prop] = dedupe(dischargedKeys)
+		// a clause enters the baseline only if every instance discharged well inside the timeout and none was undecided
+		bad := map[string]bool{}
+		for k := range slowKeys {
+			bad[k] = true
+		}
+		for _, o := range out.undecided {
+			bad[o.ClauseKey] = true
+		}
+		var keep []string
+		for _, k := range dedupe(dischargedKeys) {
+			if !bad[k] {
+				keep = append(keep, k)
+			}
+		}
+		if prev, ok := base.Props[prop]; ok && os.Getenv("VERIF_BASELINE_INTERSECT") != "" {
+			in := map[string]bool{}
+			for _, k := range prev {
+				in[k] = true
+			}
+			var both []string
+			for _, k := range keep {
+				if in[k] {
+					both = append(both, k)
+				}
+			}
+			keep = both
+		}
+		base.Props[prop] = keep
 		writeJSON(filepath.Join(*verif, "baseline_obligations.json"), base)
 	}
 	fmt.Printf("%s %s: %d obligations, %d discharged, %d undecided, %d known findings, %d violations, %.1fs\n",
@@ -312,7 +343,7 @@ func envOr(k, d string) string {
 
 func dedupe(xs []string) []string {
 	m := map[string]bool{}
-	var out []string
+	out := []string{}
 	for _, x := range xs {
 		if !m[x] {
 			m[x] = true
